@@ -652,10 +652,11 @@ def compare_pictures(expected, actual, eps, unit_tol=1.0, palette_check=True, ex
         if len(ealpha) != len(aalpha) or any(abs(x[0] - y[0]) > 0.005 or x[1] != y[1] for x, y in zip(ealpha, aalpha)):
             probs.append(f"layer {i}: group alphas {aalpha} != expected {ealpha}")
         d = boundary_distance(e[1], a[1])
-        tol = eps * max(1.0, a[4] if len(a) > 4 else 1.0) + extra_eps
+        tol = eps * max(1.0, a[4] if len(a) > 4 else 1.0, e[4] if len(e) > 4 else 1.0) + extra_eps
         if d > tol:
             probs.append(f"layer {i} ({a[3]}): outline is {d:.2f} units from the source shape (tol {tol:.2f})")
             continue
-        for p in compare_fill(e[2], a[2], polys_bbox(e[1]), unit_tol, palette_check):
+        sc = max(1.0, a[4] if len(a) > 4 else 1.0, e[4] if len(e) > 4 else 1.0)
+        for p in compare_fill(e[2], a[2], polys_bbox(e[1]), unit_tol * sc, palette_check):
             probs.append(f"layer {i} ({a[3]}): {p}")
     return probs
